@@ -162,6 +162,16 @@ def loaded_from(t):
     return None
 
 
+def stored_entry(e, p):
+    """for a read-modify-write effect e: (term of the entry read before the write, decided present on path p?).
+    `load` fails when the entry is absent, `may_load` / update's closure argument is an Option decided by a branch"""
+    if e.old is None:
+        return None, False
+    if e.old[0] == "vfield" and e.old[1][0] == "load":
+        return e.old, True
+    return ("vfield", e.old, "Some", "0"), any(c[0] == e.old and c[1] == "Some" for c in p.conds)
+
+
 def field_of(t, name):
     """value of field `name` of a struct-like term (struct / update chains), else ('field', t, name)"""
     k = t[0]
@@ -210,6 +220,43 @@ def eff_index(path, eff):
         if e is eff:
             return i
     return None
+
+
+def decided_ints(conds, term, before=None):
+    """integer values the path decided `term` to be equal to, whichever way the test was spelled:
+    `match term { 7 => .. }` (switch decision) or `term == 7` / `7 == term` evaluated true"""
+    out = []
+    for c in conds:
+        if before is not None and c[3] > before:
+            continue
+        t, o = c[0], c[1]
+        if t == term and isinstance(o, tuple) and o and o[0] == "=":
+            out.append(o[1])
+        elif t[0] == "cmp" and t[1] == "eq" and o is True:
+            a, b = t[2], t[3]
+            if a == term and b[0] == "lit" and isinstance(b[1], int):
+                out.append(b[1])
+            elif b == term and a[0] == "lit" and isinstance(a[1], int):
+                out.append(a[1])
+    return out
+
+
+def order_facts(conds, before=None):
+    """ordering facts the decisions of a path establish: [(lo, hi, strict, cond)] meaning lo < hi (strict) or lo <= hi.
+    (a lt b)=T: a<b;  (a lt b)=F: b<=a;  (a le b)=T: a<=b;  (a le b)=F: b<a - whichever way the source spelled the test
+    (`if a >= b {..}`, `ensure!(a < b)`, early return on the negation)."""
+    out = []
+    for c in conds:
+        if before is not None and c[3] > before:
+            continue
+        t, o = c[0], c[1]
+        if t[0] == "cmp" and t[1] in ("lt", "le") and isinstance(o, bool):
+            a, b = t[2], t[3]
+            if t[1] == "lt":
+                out.append((a, b, True, c) if o else (b, a, False, c))
+            else:
+                out.append((a, b, False, c) if o else (b, a, True, c))
+    return out
 
 
 # ------------------------------------------------------------------------ responses
